@@ -18,6 +18,12 @@ func (s *ClientCache) Heartbeat(instance string) {
 	return
 }
 
+// Has tells whether the instance is known as a client right now.
+func (s *ClientCache) Has(instance string) bool {
+	_, ok := s.clientHeartbeats.Load(instance)
+	return ok
+}
+
 func (s *ClientCache) Delete(instance string) {
 	s.clientHeartbeats.Delete(instance)
 }
